@@ -90,6 +90,11 @@ func c11Spec(p c11Params, mapMonitor bool) *VsSpec {
 			s.c.SendRaw(b[:5])
 		case "afterwrite":
 			s.c.Send(p.Dotu, &wire.Msg{Type: wire.Tclunk, Tag: 200, Fid: 0})
+		case "stalledwriter":
+			// the client stopped reading: the server's writer is blocked inside Write when the client goes away
+			s.c.SrvEnd.StallOutgoing()
+			s.c.Send(p.Dotu, &wire.Msg{Type: wire.Tstat, Tag: 200, Fid: 0}, &wire.Msg{Type: wire.Tstat, Tag: 201, Fid: 0})
+			vs.Idle()
 		}
 		s.c.End.Close()
 		if len(p.Release) > 0 {
@@ -214,7 +219,7 @@ func c11Scenarios(tier string) []Scenario {
 			out = append(out, c11Scenario(q))
 		}
 	}
-	closes := []string{"boundary", "midframe", "afterwrite"}
+	closes := []string{"boundary", "midframe", "afterwrite", "stalledwriter"}
 	parkedSets := [][]string{{}, {"clunk"}, {"walk"}, {"read"}, {"stat"}, {"remove"}, {"clunk", "read"}, {"walk", "write"}}
 	P := 2
 	if tier == "thorough" {
@@ -231,7 +236,7 @@ func c11Scenarios(tier string) []Scenario {
 			if len(ps) == 2 {
 				pp = P - 1
 			}
-			add(c11Params{Prefix: prefix, Parked: ps, Close: closes[i%3], Maxpend: []int{0, 2}[i%2], Dotu: i%4 < 2, P: pp})
+			add(c11Params{Prefix: prefix, Parked: ps, Close: closes[i%4], Maxpend: []int{0, 2}[i%2], Dotu: i%4 < 2, P: pp})
 		}
 	}
 	if tier == "thorough" {
@@ -249,7 +254,7 @@ func c11Scenarios(tier string) []Scenario {
 func init() {
 	register(&Property{ID: "C11", Level: "model_checking",
 		Technique: "stateless model checking of the real server under a controlled scheduler; leaks decided at the final quiescent state",
-		Rule:      "every schedule with at most P preemptions from the disconnect onwards, per scenario: every prefix of a history that leaves fids attached/walked/open/created/clunked x set of requests parked in the implementation x every release order x disconnect at a frame boundary / mid-frame / right after a request x Maxpend 0/2 x dialect, with a bystander connection; distinct = distinct per-object operation orders",
+		Rule:      "every schedule with at most P preemptions from the disconnect onwards, per scenario: every prefix of a history that leaves fids attached/walked/open/created/clunked x set of requests parked in the implementation x every release order x disconnect at a frame boundary / mid-frame / right after a request / while the server's writer is blocked inside Write (client stopped reading) x Maxpend 0/2 x dialect, with a bystander connection; distinct = distinct per-object operation orders",
 		Assumptions: []string{"code between two synchronisation operations is atomic (race-free executions)", "a client disconnect is the client end closing: the server reads EOF after draining, its writes fail", "the Ufs file-descriptor clause is checked separately by the Ufs scenarios"},
-		Scenarios:   c11Scenarios, QuickS: 100, ThoroughS: 1500})
+		Scenarios:   c11Scenarios, QuickS: 180, ThoroughS: 1500})
 }
